@@ -209,10 +209,21 @@ theorem sha_convert_exact (a b : Addr) :
 theorem sha_dist_symm (a b : Addr) : convert (distSha a b) = convert (distSha b a) := by
   unfold distSha; rw [dist_symm]
 
-theorem sha_dist_zero_iff (hinj : ∀ x y, SafeNet.Sha256.hashNat x = SafeNet.Sha256.hashNat y → x = y) (a b : Addr) :
-    convert (distSha a b) = 0 ↔ asBytes a = asBytes b := by
+/-- zero exactly when the two digests are equal (no hypothesis) … -/
+theorem sha_dist_zero_iff (a b : Addr) :
+    convert (distSha a b) = 0 ↔ SafeNet.Sha256.hashNat (asBytes a) = SafeNet.Sha256.hashNat (asBytes b) := by
   rw [convert_is_identity _ (sha_dist_lt a b)]
-  exact dist_eq_zero_iff _ hinj a b
+  unfold distSha dist
+  exact xor_eq_zero_iff _ _
+
+/-- … hence zero only for equal address bytes, unless these two byte strings are a SHA-256 collision. The hypothesis
+is about this pair only (a global "SHA-256 is injective" is false of any function into 256 bits, and would make the
+statement vacuous). -/
+theorem sha_dist_zero_only_equal (a b : Addr)
+    (hpair : SafeNet.Sha256.hashNat (asBytes a) = SafeNet.Sha256.hashNat (asBytes b) → asBytes a = asBytes b) :
+    convert (distSha a b) = 0 ↔ asBytes a = asBytes b := by
+  rw [sha_dist_zero_iff]
+  exact ⟨hpair, fun h => by rw [h]⟩
 
 theorem sha_dist_form_independent (a b : Addr) :
     convert (distSha (fromRecordKey (toRecordKey a)) b) = convert (distSha a b) := by
@@ -253,6 +264,7 @@ end SafeNet.Props.C11
 #print axioms SafeNet.Props.C11.sha_convert_exact
 #print axioms SafeNet.Props.C11.sha_dist_symm
 #print axioms SafeNet.Props.C11.sha_dist_zero_iff
+#print axioms SafeNet.Props.C11.sha_dist_zero_only_equal
 #print axioms SafeNet.Props.C11.sha_dist_form_independent
 #print axioms SafeNet.Props.C11.fetch_order_is_by_distance
 #print axioms SafeNet.Props.C11.sort_sorted
